@@ -148,7 +148,7 @@ pub fn build(id: &str, tier: Tier) -> Option<Check> {
             jobs: {
                 let mut j: Vec<Box<dyn Runnable>> = crate::auth::OWNED
                     .iter()
-                    .map(|k| bfs(crate::auth::Auth { contract: k, seeds: vec!["fresh", "funded", "evolved", "no_airdrop_registry"] }, tier.pick(4, 5), secs / 4.0))
+                    .map(|k| bfs(crate::auth::Auth { contract: k, seeds: vec!["fresh", "funded", "evolved", "no_airdrop_registry", "dispatcher_replaced"] }, tier.pick(4, 5), secs / 4.0))
                     .collect();
                 j.push(bfs(crate::auth::Wiring, tier.pick(5, 7), secs / 4.0));
                 j
@@ -172,7 +172,7 @@ pub fn build(id: &str, tier: Tier) -> Option<Check> {
             jobs: vec![Box::new(C12Enum { max_len: tier.pick(5, 7), max_val: tier.pick(5, 6) })],
             rule: "every validator list of length 0..=L with delegations in 0..=V in every order (L=5,V=5 quick; L=7,V=6 thorough), every amount 0..=sum+6, plus the same box scaled by 1e6+3, 1e12+7 and ~1e18/(L*V) with +-1 perturbations of delegations and amounts, through the public calculate_delegations / calculate_undelegations; each call under a 2 s watchdog; non-trivial = accepted plan with amount > 0".into(),
             assumptions: vec!["the two planning functions are pure; totals stay below 2^127 (u128-safe range of the property)".into()],
-            essential: vec!["c12_empty_list", "c12_lists_with_zero", "c12_unsorted_lists", "c12_undelegate_rejected"],
+            essential: vec!["c12_empty_list", "c12_lists_with_zero", "c12_unsorted_lists", "c12_undelegate_rejected", "c12_large_n_lists"],
         },
         "C14" => Check {
             id: "C14",
@@ -216,8 +216,9 @@ pub fn build(id: &str, tier: Tier) -> Option<Check> {
             Check {
                 id: "C17",
                 jobs: vec![
-                    Box::new(C17Enum { balances: bal.clone(), bonded: bonded.clone(), prices: prices.clone(), rates: rates.clone(), third_denom: vec![0], label: "box".into() }),
-                    Box::new(C17Enum { balances: vec![0, 3, 1000, 1_000_000_000_000_000_000], bonded: vec![0, 2, 1_000_003], prices: vec!["0.75", "1", "1000"], rates: vec!["0.05", "1"], third_denom: vec![0, 5, 1_000_000], label: "third-denom".into() }),
+                    Box::new(C17Enum { balances: bal.clone(), bonded: bonded.clone(), prices: prices.clone(), rates: rates.clone(), third_denom: vec![0], label: "box".into(), duplicate_denom: None }),
+                    Box::new(C17Enum { balances: vec![0, 3, 1000, 1_000_000_000_000_000_000], bonded: vec![0, 2, 1_000_003], prices: vec!["0.75", "1", "1000"], rates: vec!["0.05", "1"], third_denom: vec![0, 5, 1_000_000], label: "third-denom".into(), duplicate_denom: None }),
+                    Box::new(C17Enum { balances: vec![0, 3, 200, 1_000_003], bonded: vec![0, 1, 3], prices: vec!["0.75", "1", "32"], rates: vec!["0.05"], third_denom: vec![0, 500], label: "duplicate-swap-denom".into(), duplicate_denom: Some(USEI) }),
                     bfs(crate::params::Params::for_c17(), tier.pick(3, 4), secs),
                 ],
                 rule: "every tuple (dispatcher usei balance, kusd balance, stSei bonded, bSei bonded, oracle price, keeper rate) of the stated box (and a smaller box with a third swap denom) is run through the real SwapToRewardDenom + DispatchRewards entry points (sent by the hub address) on the integrated deployment with the stub swap/oracle; plus a BFS over dispatcher configuration updates (shared with C20) for 'keeper rate never above 1'; non-trivial = a tuple where something was swapped or dispatched".into(),
@@ -250,7 +251,7 @@ pub fn build(id: &str, tier: Tier) -> Option<Check> {
                 jobs,
                 rule: "per token (bSei on cw20-legacy, stSei on cw20-base): start states = every instantiate message whose initial_balances is a list of length 0..=3 over {alice, bob} x {0,1,5} (repeated addresses included; rejected messages create no state), explored 1-2 steps; plus every sequence of <= D calls of every cw20 entry point (transfer, send to hub / non-hub, mint and burn by hub / holder / stranger, increase and decrease allowance with every expiration shape around the current block, TransferFrom / SendFrom / BurnFrom by the spender and by strangers, amounts 0, 1, 2, all, all+1, block advance) from two seeds; non-trivial = every distinct state (conservation) and every successful transaction (supply delta, allowance ledger)".into(),
                 assumptions: envelope(),
-                essential: vec!["c18_states", "c18_supply_delta_checked", "c18_allowance_spend_checked", "c18_burn_triggers_check_slashing", "c18_mint_attempts", "c18_burn_attempts"],
+                essential: vec!["c18_states", "c18_supply_delta_checked", "c18_allowance_spend_checked", "c18_burn_triggers_check_slashing", "c18_rates_after_burn_checked", "c18_mint_attempts", "c18_burn_attempts"],
             }
         }
         "C19" => {
